@@ -447,6 +447,37 @@ def triples(draw):
     region = draw(st.sampled_from(REGIONS))
     s1 = draw(st.sampled_from(PROBE_STRINGS))
     use_instance = draw(st.booleans())
+    sc = draw(st.integers(0, 19))
+    if sc in (17, 18):
+        # the opt-in no-spaces parser under different date orders (explicit or the locale's own) in one process
+        ns_strings = ["010519991030", "20150305", "150305", "05011999", "0301", "19990501103045", "0105991030", "311299"]
+        same = draw(st.sampled_from(ns_strings))
+
+        def ns_call():
+            L = draw(st.sampled_from([["en"], ["en"], ["fr"], ["ja"], ["de"], ["tl"]]))
+            S = {"PARSERS": draw(st.sampled_from([["no-spaces-time"], ["no-spaces-time"], ["no-spaces-time", "absolute-time"], ["timestamp", "no-spaces-time"]]))}
+            o = draw(st.sampled_from([None, "DMY", "YMD", "MDY", "YDM", "MYD", "DYM", "DMY", "YMD"]))
+            if o:
+                S["DATE_ORDER"] = o
+            return ["parse", same if draw(st.integers(0, 3)) else draw(st.sampled_from(ns_strings)), None, L, None, None, S]
+        first = ns_call()
+        h = [first, ns_call()]
+        if draw(st.booleans()):
+            h.append(ns_call())
+        h.append(copy.deepcopy(first))
+        return {"history": h}
+    if sc == 19:
+        # autodetection sequences with default settings through the top-level function: a non-English string first, then
+        # strings whose reading depends on which locale is tried first (ambiguous numeric order, a zone abbreviation that is
+        # a word of that language)
+        firsts = ["12 janvier 2020", "2. svibnja 2015", "3 März 2015 14:05", "12 de enero de 2020", "1 января 2020 г.", "12 Ocak 2020",
+                  "5 stycznia 2020", "2020年1月12日"]
+        later = ["10/03/2015", "02-03-2016", "15.10.2014 10:30 CET", "Jan 1, 2020 00:00 ET", "1 January 2020 10:00 PT", "10/11/12",
+                 "2020-01-15 10:00 MIT", "03/04/2012 5 pm"]
+        h = [["parse", draw(st.sampled_from(firsts)), None, None, None, None, None]]
+        for _ in range(draw(st.integers(1, 3))):
+            h.append(["parse", draw(st.sampled_from(later + firsts)), None, None, None, None, None])
+        return {"history": h}
     if draw(st.integers(0, 9)) == 2:
         # explicit-default settings on a long-lived parser: what the caller passed explicitly matters (an explicit DATE_ORDER
         # switches the locale's own order off) even when the effective values equal the defaults; the interfering call passes
